@@ -27,7 +27,7 @@ func TestCheck(t *testing.T) {
 			"from four regimes (new instance / existing within the limit / over-committed after a lowered limit / exactly at the limit) with boundary values " +
 			"(0, 1, limit, limit+-1, 2^31-1) through limiter.VerifCalculateNextQuota; (2) system: histories on the real rate-limiter server (scripted leader, local store): " +
 			"1-12 simulated honest gateway instances on 1-4 schemas (report = previous answer + used/level computed as remote_allocation.go does; status entries complete, missing for idle schemas, empty, or re-ordered) reporting one by one, in rounds and concurrently, " +
-			"with limit raised/lowered through the cluster handler, instances joining and being reclaimed. Oracle = invariants I1-I4 of the statement (oracle.go). " +
+			"with limit raised/lowered through the cluster handler, instances joining, lapsing (heartbeat > 3 s old, no cleanup pass yet, still on record) and being reclaimed. Oracle = invariants I1-I4 of the statement (oracle.go). " +
 			"Non-trivial = the clamp/floor region is reached (new instance, sum >= 90% of the limit, or sum above the limit); distinct = hash of the case resp. of the history trace.")
 		r.Assume("an honest instance reports exactly the quota it was last answered; its own quota is part of the sum on record (or it is new, previous quota 0)")
 		arithmetic(r)
@@ -37,6 +37,7 @@ func TestCheck(t *testing.T) {
 		r.Require(r.Counter("arith_overcommitted_regime") >= 1000 && r.Counter("arith_new_instance") >= 1000 && r.Counter("arith_no_room") >= 1000, "arithmetic regimes not covered")
 		r.Require(r.Counter("sys_reports_sequential") >= 1000 && r.Counter("sys_reports_concurrent") >= 500, "too few system reports")
 		r.Require(r.Counter("sys_steps_overcommitted") >= 50 && r.Counter("sys_steps_near_limit") >= 50 && r.Counter("sys_limit_lowered") >= 20, "system histories did not reach the clamp region")
+		r.Require(r.Counter("sys_lapses_before_any_cleanup") >= 40 && r.Counter("sys_reports_while_an_instance_is_lapsed") >= 300, "too few reports answered while a lapsed instance was still on record")
 		r.Require(r.Counter("sys_returns") >= 20 && r.Counter("sys_instances_reclaimed") >= 50, "too few reclaimed/returning instances")
 		// Histories abandoned because a cleanup step did not leave exactly the expected instances on record (0 on a tree whose
 		// reclamation works; that it works is C18's verdict, not C07's) are reported in the evidence; what is required is that
@@ -429,6 +430,7 @@ type history struct {
 	gws      []*gw
 	gone     []*gw // reclaimed instances (they still hold the quota they were last answered)
 	returned map[string]bool
+	lapsing  bool // an instance with an expired heartbeat is still on record (no cleanup pass yet)
 	scenario string
 	nextID   int
 	trace    []string
@@ -593,7 +595,11 @@ func (h *history) consistency(after record, w *gw, rc reportRec, s *schema) {
 	}
 	if after.status[rc.Schema] != after.sum[rc.Schema] {
 		h.dead = true
-		h.r.Violation("C07/system/recorded-sum-wrong", fmt.Sprintf("schema %s: the upstream state records an allocated sum of %d, the quotas on record sum to %d", rc.Schema, after.status[rc.Schema], after.sum[rc.Schema]), h.witness(nil))
+		sig := "C07/system/recorded-sum-wrong"
+		if h.lapsing {
+			sig += "/instance-lapsed-not-yet-reclaimed"
+		}
+		h.r.Violation(sig, fmt.Sprintf("schema %s: the upstream state records an allocated sum of %d, the quotas on record sum to %d", rc.Schema, after.status[rc.Schema], after.sum[rc.Schema]), h.witness(nil))
 	}
 }
 
@@ -781,7 +787,59 @@ func (h *history) leave() {
 	if len(h.gws) < 2 {
 		return
 	}
+	h.leaveAt(h.g.Intn(len(h.gws)))
+}
+
+// lapse: an instance's heartbeats stop reaching the server (its last heartbeat is more than the 3 s timeout old) but NO cleanup
+// pass has run yet, so it is still on record with its quota - and it still holds that quota. The others keep reporting
+// (twice each, so that a growth decided on the first report shows on record): every step is judged as usual on the quotas
+// on record, the lapsed instance included. Then either its heartbeats come through again, or the cleanup passes reclaim it.
+func (h *history) lapse() {
+	if len(h.gws) < 2 {
+		return
+	}
 	i := h.g.Intn(len(h.gws))
+	w := h.gws[i]
+	rec := readRecord(h.srv, h.upstream)
+	if rec.per[w.id] == nil {
+		return
+	}
+	h.heartbeatAll()
+	h.srv.Handle.SetHeartbeat(w.id, time.Now().Add(-4*time.Second))
+	h.r.Count("sys_lapses_before_any_cleanup", 1)
+	h.logf("heartbeats of %s stop (last one 4 s old); no cleanup pass yet, it stays on record with %v", w.id, rec.per[w.id])
+	h.lapsing = true
+	defer func() { h.lapsing = false }()
+	for round := 0; round < 2 && !h.dead; round++ {
+		for _, k := range h.g.Perm(len(h.gws)) {
+			if h.dead {
+				break
+			}
+			if o := h.gws[k]; o != w {
+				_ = h.srv.Limiter.Heartbeat(o.id)
+				h.reportOne(o)
+				h.r.Count("sys_reports_while_an_instance_is_lapsed", 1)
+			}
+		}
+	}
+	if h.dead {
+		return
+	}
+	if h.g.Bool() {
+		_ = h.srv.Limiter.Heartbeat(w.id)
+		h.logf("heartbeats of %s come through again; it still holds its quota", w.id)
+		return
+	}
+	h.lapsing = false
+	for k, o := range h.gws {
+		if o == w {
+			h.leaveAt(k)
+			return
+		}
+	}
+}
+
+func (h *history) leaveAt(i int) {
 	w := h.gws[i]
 	h.gws = append(h.gws[:i], h.gws[i+1:]...)
 	h.heartbeatAll()
@@ -917,8 +975,10 @@ func (h *history) run() {
 			if len(h.gws) < 12 {
 				h.join()
 			}
-		case x < 97:
+		case x < 96:
 			h.leave()
+		case x < 98:
+			h.lapse()
 		default:
 			h.comeBack()
 		}
